@@ -126,7 +126,7 @@ Lemma render_at_boundary : forall input off,
 Proof.
   intros input off Hv Hb _.
   destruct (span_end_ok input off Hv Hb) as [Hb2 [Hle1 Hle2]].
-  unfold render, render_with, detect, slice_to, snippet_ok. rewrite Hb, Hb2.
+  unfold render, render_with, render_gen, detect_gen, slice_to, snippet_ok. rewrite Hb, Hb2.
   assert (Hleb : Nat.leb off (span_end input off) = true) by (apply Nat.leb_le; exact Hle1).
   rewrite Hleb. simpl.
   destruct (containsb kw_select (map ascii_lower input) && negb (containsb kw_where (map ascii_lower input)) &&
@@ -237,4 +237,24 @@ Proof.
   destruct (wf_pending _ _ Hrest) as [_ Hcs0].
   apply cs_boundary. replace (S i) with (i + 1)%nat by lia.
   apply cs_skipn; [lia |]. rewrite Hsk. apply cs_cons. exact Hcs0.
+Qed.
+
+(* Every slice that uses the offset is a slice of the request itself: apart from the two early
+   returns, detection fails exactly when the offset is not a boundary OF THE INPUT. *)
+Lemma detect_panics_iff : forall input off,
+  detect input off = None <->
+  (containsb kw_select (map ascii_lower input) && negb (containsb kw_where (map ascii_lower input)) &&
+     negb (containsb kw_insert (map ascii_lower input)) = false /\
+   negb (Nat.eqb (countb 123 input) (countb 125 input)) = false /\
+   boundary input off = false).
+Proof.
+  intros input off. unfold detect, detect_gen, slice_to.
+  destruct (containsb kw_select (map ascii_lower input) && negb (containsb kw_where (map ascii_lower input)) &&
+            negb (containsb kw_insert (map ascii_lower input))).
+  - split; [discriminate | intros [H _]; discriminate].
+  - destruct (negb (Nat.eqb (countb 123 input) (countb 125 input))).
+    + split; [discriminate | intros [_ [H _]]; discriminate].
+    + destruct (boundary input off).
+      * destruct (Nat.odd (countb 34 (firstn off input))); split; try discriminate; intros [_ [_ H]]; discriminate.
+      * split; auto.
 Qed.
